@@ -229,3 +229,23 @@ PROPS["C08"] = {
     "uncovered": ["per-class field order is not a theorem (exercised only)", "DbGraphO, MeshSpherical, DbMeshStandard, RuleShift/RuleShadow, AnamDiscreteIR, AnamUser, FracList are not generated", "getters not reflected in the display or the file"],
     "assumptions": ["derived quantities recomputed by a reader from 15-digit values may differ from the original by at most 2 units of the 15th significant digit"],
 }
+
+PROPS["C09"] = {
+    "module": "GstProofs.Props.C09",
+    "theorems": [
+        "GstProofs.C09.readVecLines_spec", "GstProofs.C09.readVec_spec", "GstProofs.C09.readRows_spec",
+        "GstProofs.C09.deserDb_consistent", "GstProofs.C09.truncated_file",
+    ],
+    "harnesses": ["vh_c09"],
+    "level": "proof",
+    "technique": "Lean 4 model of the neutral-file readers (total functions: termination accepted by the kernel) with theorems over EVERY file content: the vector reader never returns more values than asked, every accepted Db file yields a consistent table whose size is bounded by the number of tokens of the file, hence every prefix/corruption is either rejected or consistent; correspondence: for every serialisable class (19 loaders incl. CSV, Zycor, IfpEn) byte prefixes and token corruptions of library-written files are offered to the real loader in a forked child (CPU alarm, 2 GB ceiling; AddressSanitizer+UBSan build in the thorough tier); loaded objects must display, save and reload, data bases must satisfy the C07 invariant (Lean `inv`), and the accept/reject decision on Db files is compared with the model reader",
+    "level_text": "Partial proof: bounds, consistency and size-boundedness of the record layer and of the Db layout are theorems for all inputs; memory safety and absence of hangs of the C++ code cannot be stated in the model - they are observed on the library (sanitizers in the thorough tier) for prefixes at every byte of files up to 500 bytes (thorough) / 40 sampled bytes (quick) and 60-600 token corruptions per file and class. The per-class readers other than Db are exercised, not modelled.",
+    "level_note": "Trusted: Lean kernel + 3 standard axioms; the C++ tokeniser (operator>>, getline) is the trusted front end of the model; ASan/UBSan and the 2 GB / 20 s limits define 'memory corruption', 'exhausts memory' and 'hang'; loaders not in the harness list (DbGraphO, DbMesh*, MeshSpherical, Anam other than Hermite, RuleShift/Shadow, F2G, BMP, LAS) are not exercised.",
+    "rule": "per class: 1 (quick) / 3 (thorough) library-written valid files; mutants = every byte prefix (thorough) or 40 sampled prefixes, 60/600 token mutations (replacement by 21 hostile values incl. negative, huge, non-numeric, NA, comment; deletion; duplication; line deletion; half of them in the header third), wrong tag, binary garbage, garbage tail, empty file. distinct = distinct request line",
+    "trivial": lambda line: " valid " in line,
+    "flavour": {"thorough": "asan"},
+    "env": {"thorough": {"ASAN_OPTIONS": "detect_leaks=0:max_allocation_size_mb=2048:hard_rss_limit_mb=6000:abort_on_error=1", "UBSAN_OPTIONS": "print_stacktrace=1"}},
+    "trusted_base": TB_COMMON + ["AddressSanitizer/UBSan runtime (thorough tier)", "fork/alarm/rlimit harness"],
+    "uncovered": ["memory safety itself is observed (sanitizers), not proved", "loaders outside the harness list", "binary formats"],
+    "assumptions": ["limits: 20 s CPU alarm and 2 GB address space (plain) / 2 GB single allocation (ASan) per load"],
+}
